@@ -51,7 +51,7 @@ def budget(tier):
 
 
 def strategy(tier):
-    return st.builds(lambda g, f, cache, order: {"g": g, "f": f, "cache": cache, "order": order}, st.one_of(graphs.graph_descs(), graphs.graph_descs(classes=9, wide=True), graphs.graph_descs(classes=9, wide=True, min_v=2, min_e=2), graphs.eq_graph_descs()), graphs.filter_specs_objs, st.booleans(), st.integers(0, 5))
+    return st.builds(lambda g, f, cache, order: {"g": g, "f": f, "cache": cache, "order": order}, st.one_of(graphs.graph_descs(), graphs.graph_descs(classes=11, wide=True), graphs.graph_descs(classes=11, wide=True, min_v=2, min_e=2), graphs.eq_graph_descs()), graphs.filter_specs_objs, st.booleans(), st.integers(0, 5))
 
 
 _TABLE_FILTERS = [None, {"ft": "pair", "mask": 0xFFFF}, {"ft": "pair", "mask": 0}, {"ft": "pair", "mask": 0, "falsy": True}, {"ft": "edge", "mask": 0b01, "falsy": True}] + [
@@ -76,9 +76,18 @@ def enumerate_cases(tier, shard=0, nshards=1):
     )
 
 
-def run_real(vs, v, d, u, ff, vi):
+def run_real(vs, v, d, u, ff, vi, churn=False):
     from edgegraph.traversal import helpers
 
+    if churn and ff is not None and not hasattr(ff, "fn"):
+        # caching on: a throw-away filter of other behaviour first, then a NEW callable with the case's truth table
+        # (short-lived filter objects must not be confused with one another)
+        try:
+            helpers.neighbors(vs[v], d, u, lambda e, x: False)
+        except NotImplementedError:
+            pass
+        inner = ff
+        ff = lambda e, x: inner(e, x)
     try:
         out = helpers.neighbors(vs[v], d, u, ff)
     except NotImplementedError:
@@ -161,7 +170,7 @@ def _check_world(case, vs, ls):
                     exp = ref_neighbors(G, v, d, u, f, lenient=lenient)
                 except RefNotImplemented:
                     exp = "NIE"
-                got = run_real(vs, v, d, u, ff, vi)
+                got = run_real(vs, v, d, u, ff, vi, churn=bool(case.get("cache")) and bool(case.get("order", 0) & 1))
                 table[(v, d, u)] = got
                 where = f"neighbors(v{v}, direction={d}, unknown={u}, filter={case['f']})"
                 if lenient and exp != "NIE":
